@@ -658,6 +658,7 @@ class ImageBatch(DataTensor):
         if align_corners is None:
             align_corners = self.align_corners()
         grids = tuple(grid.align_corners(align_corners) for grid in self._grid)
+        source_grids = grids
         # Finest level grids of multi-level resolution pyramid
         if spacing is not None:
             spacing0 = grids[0].spacing()
@@ -674,7 +675,20 @@ class ImageBatch(DataTensor):
             size = grids[0].size()
             data = U.grid_resize(self, size, mode=mode, align_corners=align_corners)
         else:
-            points = grids[0].coords(device=self.device)
+            axes = Axes.from_align_corners(align_corners)
+            points = torch.cat(
+                [
+                    grid_transform_points(
+                        grid.coords(align_corners=align_corners, device=self.device),
+                        grid,
+                        axes,
+                        source_grid,
+                        axes,
+                    ).unsqueeze(0)
+                    for grid, source_grid in zip(grids, source_grids)
+                ],
+                dim=0,
+            )
             data = U.grid_sample(self, points, mode=mode, align_corners=align_corners)
         # Construct image pyramid by repeated downsampling
         pyramid = {}
